@@ -31,6 +31,9 @@ func (s *skel) line(format string, a ...interface{}) {
 func (s *skel) tr() {
 	s.trace++
 	s.line("fmt.Println(%d)", s.trace)
+	// a step of one local counter next to every trace: steps at the end of a block and right after it are adjacent
+	// in the bytecode (code an optimizer might merge across the jump target between them)
+	s.line("c++")
 }
 
 // a construct is emitted around a body callback; kinds are listed in skelKinds.
@@ -276,7 +279,7 @@ func (sp skelSpec) build(id int) *Prog {
 					s.line("continue")
 				}
 			case "return":
-				s.line("return %d", 100+s.trace)
+				s.line("return %d + c", 100+s.trace)
 			case "condbreak":
 				if inLoop || inSwitch {
 					s.line("if s3 > 0 {")
@@ -309,7 +312,7 @@ func (sp skelSpec) build(id int) *Prog {
 	}
 	emit(0, false, false)
 	name := fmt.Sprintf("f%d", id)
-	src := fmt.Sprintf("package main\n\nimport \"fmt\"\n\nfunc %s(n int, s0 int, s1 int, s2 int, s3 int) int {\n%s\treturn 0\n}\n", name, s.sb.String())
+	src := fmt.Sprintf("package main\n\nimport \"fmt\"\n\nfunc %s(n int, s0 int, s1 int, s2 int, s3 int) int {\n\tc := 0\n%s\tfmt.Println(\"c\", c)\n\treturn 0\n}\n", name, s.sb.String())
 	// unreachable code after a terminating statement makes "declared and not used"-free Go; a trailing return after
 	// return/break is legal Go.
 	desc := strings.Join(sp.kinds, ">") + fmt.Sprintf("@%v:%s", sp.at, sp.jmp)
